@@ -12,7 +12,7 @@ import json
 import os
 
 from mon import refbufr as R
-from mon import handover
+from mon import handover, midscan, twins
 from mon.gen import cases, streams
 from mon.monitors import tape
 
@@ -82,6 +82,45 @@ def frame_sections(fr):
         d = dict(vals)
         out.append((idx, d))
     return out
+
+
+def judge_metadata(kind, m, b, opts):
+    """C17's oracle for a message delivered in the middle of other work: every parameter of sections 0-3 has the value R's own
+    section layouts read from the bytes; a metadata-only decode has no data, a full decode has the data and the end section"""
+    from pybufrkit.mdquery import MetadataExprParser, MetadataQuerent
+    fr = R.parse_frame(b)
+    q = MetadataQuerent(MetadataExprParser())
+    for idx, d in frame_sections(fr):
+        if idx > 3:
+            continue
+        for nme, exp in d.items():
+            if nme in ('template_data',):
+                continue
+            got = q.query(m, '%%%d.%s' % (idx, nme))
+            if norm_md(got) != norm_md(exp):
+                return '%%%d.%s is %r, the bytes hold %r' % (idx, nme, got, exp)
+    idxs = [sec.get_metadata('index') for sec in m.sections]
+    if kind == 'info':
+        if 5 in idxs:
+            return 'metadata-only decode went on to the end section (sections %r)' % (idxs,)
+        if any(p.name == 'template_data' and p.value is not None for sec in m.sections for p in sec):
+            return 'metadata-only decode holds template data'
+    else:
+        if idxs != list(fr.order):
+            return 'full decode has sections %r, the message has %r' % (idxs, list(fr.order))
+        if not any(p.name == 'template_data' and p.value is not None for sec in m.sections for p in sec):
+            return 'full decode holds no template data'
+    return None
+
+
+def norm_md(v):
+    if isinstance(v, (bytes, bytearray)):
+        return bytes(v).decode('latin-1')
+    if isinstance(v, bool):
+        return int(v)
+    if isinstance(v, (list, tuple)):
+        return [norm_md(x) for x in v]
+    return v
 
 
 def check_message(ctx, dec, q, names, b, spec, edition, sec2):
@@ -178,7 +217,8 @@ def check_message(ctx, dec, q, names, b, spec, edition, sec2):
     for vname, vb, opts in variants:
         tape.recent.clear()
         try:
-            mi = dec.process(vb, info_only=True, **opts)
+            with twins.paused():        # the tape of THIS call is looked at below: no other instance reads in between
+                mi = dec.process(vb, info_only=True, **opts)
         except Exception as ex:
             ctx.violate('info-only-raises:%s/%s' % (type(ex).__name__, vname),
                         'info-only decode of a message with %s raised %s: %s' % (vname, type(ex).__name__, str(ex)[:100]),
@@ -353,6 +393,13 @@ def run(ctx):
             continue
         check_message(ctx, dec, q, names, msg.bytes, dict(origin='random', edition=ed, sec2=sec2 is not None, ids=ids,
                                                          hex=msg.bytes.hex()), ed, sec2 is not None)
+        recent = ctx.__dict__.setdefault('_c17_recent', [])
+        recent.append((msg.bytes, msg.bytes))
+        if len(recent) >= 6:
+            ctx.count('mid_scan_blocks')
+            if ctx.counters['mid_scan_blocks'] % (3 if ctx.quick else 2) == 1:
+                midscan.scenarios(ctx, 'metadata', Decoder, recent[:3], recent[3:6], judge_metadata, dict(origin='mid-scan'))
+            del recent[:]
         declared_length_stream(ctx, dec, rng, k)
         if qn % 4 == 0:
             declared_length_stream(ctx, dec, rng, k + 3)
